@@ -288,6 +288,51 @@ pub fn run(rng: &mut Rng, n: usize, rep: &mut Report) {
                 }
             }
         }
+        // ------------------------------------------------------------ reduce-only collateral counts for NOTHING toward new
+        // borrowing — with plain weights and under e-mode (the debt bank grants the collateral's e-mode tag a high weight) —
+        // but still counts at maintenance level (user 0's only collateral is bank 0, its debt is in bank 1)
+        for emode in [false, true] {
+            let mut s = clone_scen(&base);
+            let (k0, k1) = (s.banks[0].bank, s.banks[1].bank);
+            let mut b0 = s.w.bank(&k0);
+            b0.config.operational_state = BankOperationalState::ReduceOnly;
+            if emode {
+                b0.emode.emode_tag = 7;
+            }
+            s.w.set_bank(&k0, &b0);
+            if emode {
+                let mut b1 = s.w.bank(&k1);
+                b1.emode.emode_config.entries[0] = marginfi_type_crate::types::EmodeEntry {
+                    collateral_bank_emode_tag: 7,
+                    flags: 0,
+                    pad0: [0; 5],
+                    asset_weight_init: fixed::types::I80F48::from_num(0.9).into(),
+                    asset_weight_maint: fixed::types::I80F48::from_num(0.95).into(),
+                };
+                b1.emode.flags |= 1;
+                s.w.set_bank(&k1, &b1);
+            }
+            let mut scratch = Report::default();
+            for amt in [1u64, 1_000, 1_000_000] {
+                let mut s2 = clone_scen(&s);
+                let r = s2.step(&Act::Borrow { u: 0, b: 1, amt }, &mut scratch);
+                cells += 1;
+                rep.bump("cases");
+                rep.bump(if emode { "reduce_only_emode_borrow" } else { "reduce_only_borrow" });
+                if matches!(r, Some(Ok(()))) {
+                    rep.fail(format!(
+                        "reduce-only-collateral-counts: a borrow of {} backed ONLY by deposits in a reduce-only bank was accepted ({})",
+                        amt, if emode { "the debt bank has an e-mode entry for the collateral's tag" } else { "no e-mode" }
+                    ));
+                }
+            }
+            // … while at maintenance level the deposit still counts: the account is not liquidatable
+            if let Some(h) = crate::mon_c10::health(&s.w, &s.users[0].acct) {
+                if h.maint <= 0 {
+                    rep.fail(format!("reduce-only collateral no longer counts at maintenance level (health {})", h.maint));
+                }
+            }
+        }
         rep.sample(format!("matrix on world with {} banks, {} users", base.banks.len(), base.users.len()));
     }
     let _ = ExecErr::Panic;
